@@ -213,8 +213,10 @@ def check_shared(ctx, m):
             return expr_shared(e.value, local_shared) and False
         return False
 
+    shared_params = {}       # function / method name -> parameters that receive a may-shared value at some call site in the module
+
     def local_shared_vars(fn):
-        ls = set()
+        ls = set(shared_params.get(getattr(fn, 'name', None), ()))
         changed = True
         while changed:
             changed = False
@@ -240,18 +242,36 @@ def check_shared(ctx, m):
         return ls
 
     funcs = [fi for q, fis in m.funcs.items() for fi in fis if not isinstance(fi.node, ast.Lambda)]
+    by_name = {}
+    for fi in funcs:
+        by_name.setdefault(fi.name, []).append(fi)
     changed = True
     while changed:
         changed = False
         for fi in funcs:
-            if fi.name in shared_ret:
-                continue
             ls = local_shared_vars(fi.node)
-            for n in walk_no_nested(fi.node):
-                if isinstance(n, ast.Return) and n.value is not None and expr_shared(n.value, ls):
-                    shared_ret.add(fi.name)
-                    changed = True
-                    break
+            if fi.name not in shared_ret:
+                for n in walk_no_nested(fi.node):
+                    if isinstance(n, ast.Return) and n.value is not None and expr_shared(n.value, ls):
+                        shared_ret.add(fi.name)
+                        changed = True
+                        break
+            # a may-shared value handed to a worker of the module (the tail of several match methods written once) is may-shared there
+            for c in walk_no_nested(fi.node):
+                if not (isinstance(c, ast.Call) and call_name(c) in by_name) or any(isinstance(a, ast.Starred) for a in c.args):
+                    continue
+                for g in by_name[call_name(c)]:
+                    gp = g.params()
+                    eff = gp[1:] if isinstance(c.func, ast.Attribute) and gp[:1] in (['self'], ['cls']) else gp
+                    for i, a in enumerate(c.args):
+                        if i < len(eff) and expr_shared(a, ls) and eff[i] not in shared_params.get(g.name, ()):
+                            shared_params.setdefault(g.name, set()).add(eff[i])
+                            changed = True
+                    for k in c.keywords:
+                        if k.arg in gp and expr_shared(k.value, ls) and k.arg not in shared_params.get(g.name, ()):
+                            shared_params.setdefault(g.name, set()).add(k.arg)
+                            changed = True
+    ctx.extra['parameters_that_may_receive_shared'] = {k: sorted(v) for k, v in shared_params.items()}
     ctx.extra['functions_that_may_return_shared'] = sorted(shared_ret)
     n_checked = 0
     for fi in funcs:
